@@ -179,6 +179,348 @@ pub fn c01(args: &Args) -> Report {
     fold(res, &["panic", "codec"], 0, json!({}))
 }
 
+fn named(prefix: &str, ack: bool, closure: bool) -> String {
+    format!("{} {}{}", prefix, if ack { "ack" } else { "unack" }, if closure { "+closure" } else { "" })
+}
+
+pub fn c03(args: &Args) -> Report {
+    let mk: &MkMon = &|_s: &Scenario| Box::new(mons::C03::default());
+    if args.replay.is_some() {
+        return replay_e1(args, mk);
+    }
+    let mut scns = vec![];
+    for (ack, closure) in [(true, false), (false, false), (false, true)] {
+        let naks: Vec<(bool, u64)> = if ack { naks(args.tier) } else { vec![(false, 0)] };
+        for (imm, delay) in naks {
+            for mc in args.tier.pick(vec![2u32], vec![2u32, 3]) {
+                for abandon in [false, true] {
+                    let mut s = Scenario::base(&format!("{} nak={}{} max_count={} handlers={} blackout", named("c03", ack, closure), if imm { "imm" } else { "def" }, delay, mc, if abandon { "abandon" } else { "default" }));
+                    s.ack = ack;
+                    s.closure = closure;
+                    s.nak_immediate = imm;
+                    s.nak_delay_s = delay;
+                    s.max_count = mc;
+                    s.file_size = Some(args.tier.pick(17, 33));
+                    s.blackout = vec![LinkId::SR, LinkId::RS];
+                    if abandon {
+                        s.handlers = vec![(1, 3), (7, 3), (8, 3), (5, 3), (6, 3)];
+                    }
+                    if abandon && args.tier == Tier::Quick && (imm || delay > 0) {
+                        continue;
+                    }
+                    scns.push(s.clone());
+                    if !abandon {
+                        // independently: the bounded fault pool of C02
+                        let mut f = s.clone();
+                        f.name = format!("{} nak={}{} max_count={} F={}", named("c03", ack, closure), if imm { "imm" } else { "def" }, delay, mc, args.tier.pick(1, 2));
+                        f.blackout = vec![];
+                        all_kinds(&mut f, args.tier.pick(1, 2));
+                        scns.push(f);
+                    }
+                }
+            }
+        }
+    }
+    let res = run_all(scns, mk, args.tier);
+    let mut rep = fold(res, &GEN, 0, json!({}));
+    rep.assumptions.push("fault handlers at their default (cancel) or Abandon; Ignore/Suspend overrides and user suspension are excluded by the property".into());
+    rep
+}
+
+pub fn c04(args: &Args) -> Report {
+    let mk: &MkMon = &|_s: &Scenario| Box::new(mons::C04::default());
+    if args.replay.is_some() {
+        return replay_e1(args, mk);
+    }
+    let mut scns = vec![];
+    let (f, st) = args.tier.pick((1, 1), (2, 2));
+    for null in [false, true] {
+        for (ack, closure) in [(true, false), (false, true)] {
+            for file in [true, false] {
+                let mut s = Scenario::base(&format!("{} {} {} F={}d stragglers={}", named("c04", ack, closure), if null { "null" } else { "modular" }, if file { "file size=17" } else { "requests-only" }, f, st));
+                s.ack = ack;
+                s.closure = closure;
+                s.null_checksum = null;
+                s.file_size = if file { Some(17) } else { None };
+                // a non-idempotent request: append log2 to log1
+                s.requests = vec![(3, "log1".into(), "log2".into())];
+                s.pre_files = vec![("log1".into(), "A".into()), ("log2".into(), "B".into())];
+                s.faults = f;
+                s.k_drop = true;
+                s.stragglers = st;
+                s.stragglers_after_success = true;
+                if !file && null {
+                    continue;
+                }
+                scns.push(s);
+            }
+        }
+    }
+    // duplicates instead of stragglers (the link itself re-delivers)
+    let mut s = Scenario::base("c04 ack modular file size=17 F=2 du");
+    s.file_size = Some(17);
+    s.faults = args.tier.pick(1, 2);
+    s.k_dup = true;
+    s.k_drop = true;
+    s.requests = vec![(3, "log1".into(), "log2".into())];
+    s.pre_files = vec![("log1".into(), "A".into()), ("log2".into(), "B".into())];
+    scns.push(s);
+    let res = run_all(scns, mk, args.tier);
+    fold(res, &["panic", "codec"], 0, json!({}))
+}
+
+pub fn c18(args: &Args) -> Report {
+    let mk: &MkMon = &|_s: &Scenario| Box::new(mons::C18::default());
+    if args.replay.is_some() {
+        return replay_e1(args, mk);
+    }
+    let mut scns = vec![];
+    let f = args.tier.pick(1, 2);
+    for closure in [false, true] {
+        for (size, content) in [(0u64, Content::Ramp), (1, Content::Ramp), (16, Content::Zeros), (33, Content::NeutralAt(1)), (33, Content::Zeros)] {
+            let mut s = Scenario::base(&format!("{} size={} {:?} F={} duo", named("c18", false, closure), size, content, f));
+            s.ack = false;
+            s.closure = closure;
+            s.file_size = Some(size);
+            s.content = content.clone();
+            s.faults = f;
+            s.k_drop = true;
+            s.k_dup = true;
+            s.k_overtake = true;
+            scns.push(s.clone());
+            if size == 33 || size == 0 {
+                let mut b = s.clone();
+                b.name = format!("{} size={} {:?} blackout", named("c18", false, closure), size, content);
+                b.faults = 0;
+                b.blackout = vec![LinkId::SR, LinkId::RS];
+                scns.push(b);
+            }
+        }
+    }
+    let res = run_all(scns, mk, args.tier);
+    fold(res, &GEN, 0, json!({}))
+}
+
+pub fn c20(args: &Args) -> Report {
+    let mk: &MkMon = &|_s: &Scenario| Box::new(mons::C20::default());
+    if args.replay.is_some() {
+        return replay_e1(args, mk);
+    }
+    let mut scns = vec![];
+    for &size in args.tier.pick(&[0u64, 17, 47][..], &[0u64, 1, 17, 33, 47][..]) {
+        // prompts (keep-alive) and suspend/resume at every state, over a lossy link
+        let mut s = Scenario::base(&format!("c20 ack size={} F=1 duo + prompt/suspend/resume", size));
+        s.file_size = Some(size);
+        s.faults = 1;
+        s.k_drop = true;
+        s.k_dup = true;
+        s.k_overtake = true;
+        s.user = vec![(Side::S, UserOp::PromptKeepAlive, 1), (Side::S, UserOp::Suspend, 1), (Side::S, UserOp::Resume, 1)];
+        scns.push(s.clone());
+        let mut r = s.clone();
+        r.name = format!("c20 ack size={} F=1 d + prompt + receiver suspend/resume", size);
+        r.k_dup = false;
+        r.k_overtake = false;
+        r.user = vec![(Side::S, UserOp::PromptKeepAlive, 1), (Side::R, UserOp::Suspend, 1), (Side::R, UserOp::Resume, 1)];
+        scns.push(r);
+        // fault-raising: blackout so that Fault / Abandon indications occur
+        for abandon in [false, true] {
+            let mut b = Scenario::base(&format!("c20 ack size={} blackout handlers={}", size, if abandon { "abandon" } else { "default" }));
+            b.file_size = Some(size);
+            b.max_count = 2;
+            b.blackout = vec![LinkId::SR, LinkId::RS];
+            if abandon {
+                b.handlers = vec![(1, 3), (7, 3), (8, 3)];
+            }
+            scns.push(b);
+        }
+    }
+    let mut u = Scenario::base("c20 unack+closure size=33 F=1 d blackout");
+    u.ack = false;
+    u.closure = true;
+    u.file_size = Some(33);
+    u.faults = 1;
+    u.k_drop = true;
+    u.max_count = 2;
+    u.blackout = vec![LinkId::RS];
+    scns.push(u);
+    let res = run_all(scns, mk, args.tier);
+    fold(res, &["panic", "codec"], 0, json!({}))
+}
+
+pub fn c10(args: &Args) -> Report {
+    let mk: &MkMon = &|_s: &Scenario| Box::new(mons::C10::default());
+    if args.replay.is_some() {
+        return replay_e1(args, mk);
+    }
+    let mut scns = vec![];
+    for (ack, closure) in [(true, false), (false, false), (false, true)] {
+        for by in [Side::S, Side::R] {
+            let size = args.tier.pick(33, 47);
+            let mut s = Scenario::base(&format!("{} size={} cancel@{:?}", named("c10", ack, closure), size, by));
+            s.ack = ack;
+            s.closure = closure;
+            s.file_size = Some(size);
+            s.max_count = 2;
+            s.user = vec![(by, UserOp::Cancel, 1)];
+            scns.push(s.clone());
+            // single losses of the handshake PDUs
+            let mut l = s.clone();
+            l.name = format!("{} size=17 cancel@{:?} F=1 d", named("c10", ack, closure), by);
+            l.file_size = Some(17);
+            l.max_count = 3;
+            l.faults = 1;
+            l.k_drop = true;
+            scns.push(l);
+            // peer blackout
+            let mut b = s.clone();
+            b.name = format!("{} size=17 cancel@{:?} blackout", named("c10", ack, closure), by);
+            b.file_size = Some(17);
+            b.blackout = vec![LinkId::SR, LinkId::RS];
+            scns.push(b);
+        }
+    }
+    let res = run_all(scns, mk, args.tier);
+    fold(res, &GEN, 0, json!({}))
+}
+
+pub fn c19(args: &Args) -> Report {
+    let mk: &MkMon = &|_s: &Scenario| Box::new(mons::C19::default());
+    if args.replay.is_some() {
+        return replay_e1(args, mk);
+    }
+    let mut scns = vec![];
+    for ack in [true, false] {
+        for by in [Side::S, Side::R] {
+            let mut s = Scenario::base(&format!("{} size=33 suspend/resume@{:?}", named("c19", ack, false), by));
+            s.ack = ack;
+            s.file_size = Some(33);
+            s.user = vec![(by, UserOp::Suspend, 1), (by, UserOp::Resume, 1)];
+            s.idle = 1;
+            scns.push(s.clone());
+            if args.tier == Tier::Thorough || ack {
+                let mut l = s.clone();
+                l.name = format!("{} size=17 suspend/resume@{:?} F=1 d", named("c19", ack, false), by);
+                l.file_size = Some(17);
+                l.faults = 1;
+                l.k_drop = true;
+                scns.push(l);
+            }
+        }
+    }
+    let res = run_all(scns, mk, args.tier);
+    fold(res, &["panic", "codec", "livelock"], 0, json!({}))
+}
+
+fn nak_alphabet(size: u64, seg: u64, tier: Tier) -> Vec<InjectSpec> {
+    let offs: Vec<u64> = {
+        let mut v = vec![0, 1, seg - 1, seg, seg + 1, size.saturating_sub(1), size, size + 1, size + seg];
+        v.sort();
+        v.dedup();
+        v
+    };
+    let mut out = vec![InjectSpec::Nak(vec![(0, 0)])];
+    // single ranges: empty a..a, longer than a segment, beyond the end
+    for &a in &offs {
+        for &b in &offs {
+            if a < b || (a == b && a != 0 && (a == seg || a == size)) {
+                out.push(InjectSpec::Nak(vec![(a, b)]));
+            }
+        }
+    }
+    // pairs: overlapping, unsorted, duplicated
+    out.push(InjectSpec::Nak(vec![(0, seg), (seg - 1, seg + 1)]));
+    out.push(InjectSpec::Nak(vec![(seg, size.max(seg + 1)), (0, 1)]));
+    out.push(InjectSpec::Nak(vec![(1, seg), (1, seg)]));
+    out.push(InjectSpec::Nak(vec![(0, 0), (0, 1)]));
+    if tier == Tier::Quick {
+        // keep the shapes, thin the single ranges
+        let keep: Vec<InjectSpec> = out.iter().enumerate().filter(|(i, _)| i % 3 == 0 || *i + 4 >= out.len()).map(|(_, s)| s.clone()).collect();
+        return keep;
+    }
+    out
+}
+
+pub fn c07(args: &Args) -> Report {
+    let mk: &MkMon = &|_s: &Scenario| Box::new(mons::C07::default());
+    if args.replay.is_some() {
+        return replay_e1(args, mk);
+    }
+    let mut scns = vec![];
+    // sender-centred: the explorer plays a (non-)conforming receiver's NAKs
+    for (seg, size) in args.tier.pick(vec![(16u16, 33u64), (16, 16)], vec![(16, 33), (16, 16), (16, 0), (24, 47), (24, 25)]) {
+        let mut s = Scenario::base(&format!("c07 ack seg={} size={} injected NAKs x{}", seg, size, args.tier.pick(1, 2)));
+        s.seg = seg;
+        s.file_size = Some(size);
+        s.inject = nak_alphabet(size, seg as u64, args.tier);
+        s.inject_budget = args.tier.pick(1, 2);
+        // the real receiver is cut off so that only the injected NAKs reach the sender
+        s.blackout = vec![];
+        s.max_count = 2;
+        scns.push(s);
+    }
+    // ordinary two-party scenarios: conforming NAKs of the real receiver
+    for size in [0u64, 17, 33] {
+        let mut s = Scenario::base(&format!("c07 ack size={} F={} duo", size, args.tier.pick(1, 2)));
+        s.file_size = Some(size);
+        s.faults = args.tier.pick(1, 2);
+        s.k_drop = true;
+        s.k_dup = true;
+        s.k_overtake = true;
+        scns.push(s);
+    }
+    let mut u = Scenario::base("c07 unack size=33 F=1 d");
+    u.ack = false;
+    u.file_size = Some(33);
+    u.faults = 1;
+    u.k_drop = true;
+    scns.push(u);
+    let mut c = Scenario::base("c07 ack crc size=17 F=1 d");
+    c.crc = true;
+    c.file_size = Some(17);
+    c.faults = 1;
+    c.k_drop = true;
+    scns.push(c);
+    let res = run_all(scns, mk, args.tier);
+    fold(res, &["panic", "codec"], 0, json!({}))
+}
+
+pub fn c08(args: &Args) -> Report {
+    let mk: &MkMon = &|_s: &Scenario| Box::new(mons::C08::default());
+    if args.replay.is_some() {
+        return replay_e1(args, mk);
+    }
+    let mut scns = vec![];
+    for (imm, delay) in [(false, 0u64), (false, 5), (true, 0), (true, 5)] {
+        for size in args.tier.pick(vec![0u64, 33], vec![0u64, 16, 33, 48]) {
+            // every subset of {metadata, segments} lost: F = number of PDUs, drops only
+            let n = (size + 15) / 16 + 1;
+            let mut s = Scenario::base(&format!("c08 size={} nak={}{} F={} d (every loss subset)", size, if imm { "imm" } else { "def" }, delay, n));
+            s.file_size = Some(size);
+            s.nak_immediate = imm;
+            s.nak_delay_s = delay;
+            s.faults = n as u8;
+            s.k_drop = true;
+            s.max_count = (n + 2) as u32;
+            scns.push(s);
+        }
+        // EOF first, data after EOF, duplicated EOF, one prompt
+        let mut s = Scenario::base(&format!("c08 size=33 nak={}{} F={} duo + prompt", if imm { "imm" } else { "def" }, delay, args.tier.pick(1, 2)));
+        s.file_size = Some(33);
+        s.nak_immediate = imm;
+        s.nak_delay_s = delay;
+        s.faults = args.tier.pick(1, 2);
+        s.k_drop = true;
+        s.k_dup = true;
+        s.k_overtake = true;
+        s.k_delay = true;
+        s.user = vec![(Side::S, UserOp::PromptNak, 1)];
+        scns.push(s);
+    }
+    let res = run_all(scns, mk, args.tier);
+    fold(res, &["panic", "codec"], 0, json!({}))
+}
+
 /// debugging aid: vcheck DBG <file.json> with {"scenario":…, "histories":[[…],[…]]}
 pub fn dbg(args: &Args) -> Report {
     let mk: &MkMon = &|_s: &Scenario| Box::new(mons::C02::default());
